@@ -47,6 +47,71 @@ fn expected_repetition(cur: &Pos, stack: &[Pos]) -> (bool, bool) {
     (false, spoiled)
 }
 
+thread_local! {
+    static ENGINE: std::cell::RefCell<Option<super::ucilib::Engine>> = const { std::cell::RefCell::new(None) };
+}
+
+/// The same demand on the shipped binary: the game goes in as `position fen <root> moves ...`, so the
+/// history that the UCI layer keeps for the given moves is what the search sees. No line of the
+/// following shallow search may report a negative score when `drawing` is not empty.
+fn binary_sees_the_draw(root: &str, ops: &[String], depth: u8, drawing: &[String], at: &str, st: &mut Stats) -> Result<(), Fail> {
+    use std::time::Duration;
+    if !super::ucilib::engine_available() {
+        return Ok(());
+    }
+    ENGINE.with(|cell| -> Result<(), Fail> {
+        let mut slot = cell.borrow_mut();
+        if slot.is_none() {
+            let mut e = super::ucilib::Engine::spawn(&[]).map_err(|e| Fail::new("binary:io", e))?;
+            let _ = e.send("setoption name Hash value 1");
+            *slot = Some(e);
+        }
+        let e = slot.as_mut().unwrap();
+        e.transcript.clear();
+        let cmd = if ops.is_empty() { format!("position fen {root}") } else { format!("position fen {root} moves {}", ops.join(" ")) };
+        let r = (|| -> Result<(), Fail> {
+            let io = |x: String| Fail::new("binary:engine_died_or_silent", format!("after '{cmd}': {x}"));
+            e.send("ucinewgame").map_err(io)?;
+            e.send(&cmd).map_err(io)?;
+            e.send(&format!("go depth {depth}")).map_err(io)?;
+            loop {
+                match e.read_line(Duration::from_secs(60)) {
+                    Ok(Some(l)) => {
+                        if l.starts_with("bestmove") {
+                            return Ok(());
+                        }
+                        if l.contains("panic") {
+                            return Err(io(format!("panic line: {l}")));
+                        }
+                        if l.starts_with("info ") {
+                            if let Some(line) = super::searchlib::parse_info_line(&l) {
+                                let toks: Vec<&str> = l.split_whitespace().collect();
+                                let cp = toks.iter().position(|t| *t == "cp").and_then(|i| toks.get(i + 1)).and_then(|t| t.parse::<i32>().ok());
+                                if line.mate.map_or(false, |n| n < 0) || cp.map_or(false, |c| c < 0) {
+                                    return Err(Fail::new(
+                                        "search:draw_not_taken_into_account(position_command)",
+                                        format!("{at}, given as '{cmd}': the move(s) {drawing:?} lead to a position drawn by the game history, yet the engine reports '{l}'"),
+                                    ));
+                                }
+                            }
+                        }
+                    }
+                    Ok(None) => return Err(io("end of output".into())),
+                    Err(x) => return Err(io(x)),
+                }
+            }
+        })();
+        if r.is_err() {
+            if let Some(mut dead) = slot.take() {
+                dead.kill();
+            }
+        } else {
+            st.class("same_game_through_the_position_command_of_the_binary");
+        }
+        r
+    })
+}
+
 pub fn material_verdict(p: &Pos) -> Option<bool> {
     let heavy = [Kind::P, Kind::R, Kind::Q]
         .iter()
@@ -275,7 +340,8 @@ pub fn run(run: &mut Run) -> &'static str {
                 return Err(Fail::new("search:draw_not_taken_into_account", format!("{} after {} plies: the move(s) {drawing:?} lead to a position drawn by the game history, yet the search reports '{}'", cur.to_fen(), ops.len(), info.text())).explicit(ex()));
             }
         }
-        Ok(())
+        let Limit::Depth(d) = spec.limit else { return Ok(()) };
+        binary_sees_the_draw(&root, &ops, d, &drawing, &cur.to_fen(), st).map_err(|f| f.explicit(ex()))
     });
     // the same oracle on constructed games whose only repetition lies far back: the two kings walk
     // closed tours of coprime lengths (3..8 squares) in opposite corners, so the whole position first
